@@ -99,20 +99,29 @@ def parseNoise (j : Json) : Except String (Option NoiseSpec) := do
   | "fn" => pure (some (.affine ((← int (← field j "mul")) : Int) ((← int (← field j "add")) : Int)))
   | _ => pure (some .drawn)
 
+/-- an argument the caller may have left out of the constructor call (absent key = left out) -/
+def omittable {α} (j : Json) (k : String) (p : Json → Except String α) : Except String (Option α) :=
+  match j.getObjVal? k with
+  | .ok v => some <$> p v
+  | .error _ => pure none
+
+def parseCtor (j : Json) : Ctor :=
+  match j.getObjVal? "ctor" with
+  | .ok (Json.str "env") => .env
+  | _ => .filter
+
 def parseStep (j : Json) : Except String Step := do
   match (← str (← field j "f")) with
-  | "repr" => pure (.repr (← parseMode (fieldD j "cc" Json.null)) (← parseMode (fieldD j "ca" Json.null)))
+  | "repr" => pure (mkRepr (parseCtor j) (← omittable j "cc" parseMode) (← omittable j "ca" parseMode))
   | "flatten" => pure .flatten
-  | "sparsify" => pure (.sparsify (← bool (← field j "c")) (← bool (← field j "a")))
+  | "sparsify" => pure (mkSparsify (parseCtor j) (← omittable j "c" bool) (← omittable j "a" bool))
   | "densify" =>
-    let m ← str (← field j "m")
-    let meth ← if m == "lookup" then pure (DMethod.lookup (← strList (fieldD j "prior" (Json.arr #[])))) else do
-      let tbl ← (← arr (fieldD j "hash" (Json.arr #[]))).mapM fun e => do
-        match e with
-        | .arr #[k, i] => pure ((← str k), (← nat i))
-        | _ => throw "hash entry"
-      pure (DMethod.hashing tbl)
-    pure (.densify (← nat (← field j "n")) meth (← bool (← field j "c")) (← bool (← field j "a")))
+    let prior ← strList (fieldD j "prior" (Json.arr #[]))
+    let tbl ← (← arr (fieldD j "hash" (Json.arr #[]))).mapM fun e => do
+      match e with
+      | .arr #[k, i] => pure ((← str k), (← nat i))
+      | _ => throw "hash entry"
+    pure (mkDensify (parseCtor j) (← omittable j "n" nat) (← omittable j "m" str) (← omittable j "c" bool) (← omittable j "a" bool) prior tbl)
   | "noise" =>
     let c ← parseNoise (fieldD j "c" Json.null)
     let a ← parseNoise (fieldD j "a" Json.null)
@@ -126,7 +135,7 @@ def parseStep (j : Json) : Except String Step := do
       pure (.batch (some k))
   | "unbatch" => pure .unbatch
   | "finalize" => pure .finalize
-  | "cycle" => pure (.cycle (← nat (← field j "after")))
+  | "cycle" => pure (mkCycle (← omittable j "after" nat))
   | f => throw s!"bad step {f}"
 
 def parseCfg (j : Json) : Except String Cfg := do
@@ -232,7 +241,16 @@ def handle (req : Json) : Except String Json := do
                 ("cycleRotatesAt", ofList (fun t => Json.bool (cycleRotatesAt 1 t)) (List.range 3)),
                 ("modes", ofList (fun m => Json.arr #[Json.str (modeName m), Json.str (valuesBranch m), Json.str (collBranch m)]) allModes),
                 ("consts", obj [("finalize", ofList Json.str finalizeReprModes), ("headers", ofList Json.str sparsifyHeaders),
-                                ("seed", ofNat densifySeed), ("shift", ofNat cycleShift)])]
+                                ("seed", ofNat densifySeed), ("shift", ofNat cycleShift)]),
+                ("options", obj [("sparsify", obj [("filter", ofList Json.bool [(sparsifyDefaults .filter).1, (sparsifyDefaults .filter).2]),
+                                                   ("env", ofList Json.bool [(sparsifyDefaults .env).1, (sparsifyDefaults .env).2])]),
+                                 ("densify", obj [("filter", ofList Json.bool [(densifyFlagDefaults .filter).1, (densifyFlagDefaults .filter).2]),
+                                                  ("env", ofList Json.bool [(densifyFlagDefaults .env).1, (densifyFlagDefaults .env).2])]),
+                                 ("densify_n", ofNat densifyDefaultN), ("densify_m", Json.str densifyDefaultMethod),
+                                 ("methods", ofList (fun m => Json.arr #[Json.str m, Json.str (methodBranch m)]) (densifyMethodNames ++ ["", "Lookup", "hash"])),
+                                 ("repr", obj [("filter", ofList Json.str [optModeName (reprDefaults .filter).1, optModeName (reprDefaults .filter).2]),
+                                               ("env", ofList Json.str [optModeName (reprDefaults .env).1, optModeName (reprDefaults .env).2])]),
+                                 ("cycle_after", ofNat cycleDefaultAfter)])]
   let stream ← (← arr (← field req "stream")).mapM parseInter
   -- op "table": the look-up table a Densify object holds after it has filtered `stream` (having been asked for `prior` before)
   if (match req.getObjVal? "op" with | .ok (Json.str "table") => true | _ => false) then
@@ -241,14 +259,20 @@ def handle (req : Json) : Except String Json := do
     let a ← bool (← field req "a")
     let prior ← strList (fieldD req "prior" (Json.arr #[]))
     let cfg ← parseCfg (fieldD req "cfg" (Json.mkObj []))
-    match primeKeys (.lookup []) (initDState n) prior with
+    -- "hist": the sequences earlier reads of the same object were given (complete, aborted or abandoned), folded by `runObjHistory`
+    let hist ← (← arr (fieldD req "hist" (Json.arr #[]))).mapM fun h => do (← arr h).mapM parseInter
+    let primed := match primeKeys (.lookup []) (initDState n) prior with
+      | .error e => Except.error e
+      | .ok T0 => runObjHistory cfg (.densify n (.lookup prior) c a) T0 hist
+    match primed with
     | .error e => return obj [("error", Json.str (errName e))]
     | .ok T =>
       match densifyRun cfg (.lookup []) n c a (firstCallable (·.rewards) stream) (firstCallable (·.feedbacks) stream) T stream with
       | .error e => return obj [("error", Json.str (errName e))]
       | .ok (_, T') =>
         return obj [("table", ofList (fun (p : String × Nat) => Json.arr #[Json.str p.1, ofNat p.2]) T'.table),
-                    ("keys", ofList Json.str (keysAsked c a stream))]
+                    ("keys", ofList Json.str (keysAsked c a stream)),
+                    ("hist_keys", ofList Json.str (historyKeys c a hist))]
   let chain ← (← arr (← field req "chain")).mapM parseStep
   let cfg ← parseCfg (fieldD req "cfg" (Json.mkObj []))
   let S0 : State := { stream := stream }
